@@ -77,6 +77,8 @@ func main() {
 		os.Exit(cmdCheck(os.Args[2:]))
 	case "dump":
 		os.Exit(cmdDump(os.Args[2:]))
+	case "closure":
+		os.Exit(closure(os.Args[2:]))
 	case "coverage":
 		os.Exit(coverage(os.Args[2:]))
 	case "replay":
@@ -959,6 +961,69 @@ func coverage(args []string) int {
 	fmt.Printf("%d /repo functions, %d looked at by some check, %d by none:\n", len(p.RepoFuncKeys()), len(p.RepoFuncKeys())-len(missing), len(missing))
 	for _, m := range missing {
 		fmt.Println("  ", m)
+	}
+	return 0
+}
+
+// closure prints, per property, the /repo functions whose contracts its proofs rely on at call sites, transitively,
+// and that the check does not itself verify (candidates for "deps").
+func closure(args []string) int {
+	fs := flag.NewFlagSet("closure", flag.ExitOnError)
+	repo := fs.String("repo", repoDir, "repository")
+	fs.Parse(args)
+	p, err := loadProgram(*repo)
+	if err != nil {
+		fmt.Println("ENGINE-ERROR", err)
+		return 2
+	}
+	var props map[string]PropCfg
+	readJSON(filepath.Join(verifDir, "props.json"), &props)
+	callees := map[string][]string{}
+	get := func(f string) []string {
+		if c, ok := callees[f]; ok {
+			return c
+		}
+		callees[f] = nil
+		u, err := p.VerifyFunc(f)
+		if err != nil || u == nil {
+			return nil
+		}
+		var out []string
+		for _, c := range u.RepoCallees() {
+			if _, isFunc := p.Funcs[c]; isFunc {
+				out = append(out, c)
+			}
+		}
+		callees[f] = out
+		return out
+	}
+	var ids []string
+	for id := range props {
+		ids = append(ids, id)
+	}
+	sort.Strings(ids)
+	for _, id := range ids {
+		pc := props[id]
+		have := map[string]bool{}
+		var work []string
+		for _, f := range append(append([]string{}, pc.Funcs...), pc.Deps...) {
+			have[f] = true
+			work = append(work, f)
+		}
+		var missing []string
+		for len(work) > 0 {
+			f := work[0]
+			work = work[1:]
+			for _, c := range get(f) {
+				if !have[c] {
+					have[c] = true
+					missing = append(missing, c)
+					work = append(work, c)
+				}
+			}
+		}
+		sort.Strings(missing)
+		fmt.Printf("%s: %d listed, %d more in the closure: %v\n", id, len(pc.Funcs)+len(pc.Deps), len(missing), missing)
 	}
 	return 0
 }
